@@ -73,11 +73,25 @@ def generators(ctx):
 class Recorder(object):
     """Everywhere-defined polynomial accepting float, complex and Bicomplex arguments."""
 
-    def __init__(self, kind):
+    def __init__(self, kind, form=None, x0=None):
         self.kind = kind
         self.args = []
+        self.form = form        # None | 'nan-at-x' | 'inf-at-x' | 'nan-all': what f returns (not where it is evaluated)
+        self.x0 = x0
 
     def __call__(self, x):
+        r = self._value(x)
+        if self.form is None:
+            return r
+        from numdifftools.multicomplex import Bicomplex
+        at_x = (not isinstance(x, Bicomplex)) and np.shape(x) == np.shape(self.x0) and bool(np.all(np.asarray(x) == self.x0))
+        if self.form == 'nan-all' or (self.form == 'nan-at-x' and at_x):
+            return r * float('nan')
+        if self.form == 'inf-at-x' and at_x:
+            return r * 0.0 + float('inf')
+        return r
+
+    def _value(self, x):
         from numdifftools.multicomplex import Bicomplex
         if isinstance(x, Bicomplex):
             self.args.append((np.array(x.z1, dtype=complex, copy=True),
@@ -176,14 +190,14 @@ def complex_first_order(method, n, order):
     return order is None or order < 4
 
 
-def run_case(case):
+def run_case(case, form=None):
     """Returns (status, violations, n_args) for one case."""
     (cls, method, n, order), gen, dim, xtag = case
     import numdifftools.finite_difference as fdm
     fw.fresh_library_state()
     x = make_x(xtag, dim)
     kind = {'Derivative': 'elementwise', 'Jacobian': 'vector'}.get(cls, 'scalarfun')
-    rec = Recorder(kind)
+    rec = Recorder(kind, form, x.copy())
     import warnings
     status = 'ok'
     obj = None
@@ -223,6 +237,42 @@ def work(chunk):
             acc.violation('C05:%s:%s:%s' % (cls, method, kind),
                           {'cfg': [cls, method, n, order], 'gen': list(gen), 'dim': dim, 'x': xtag},
                           detail, rank=dim * 100 + (order or 0) + n)
+    return acc
+
+
+# ---------------------------------------------------------------------------------------------
+# where f is evaluated does not depend on what f returns: a function that is undefined (NaN / inf) at x itself - a
+# removable singularity - or everywhere is still evaluated at admissible points only
+
+VALUE_FORMS = ['nan-at-x', 'inf-at-x', 'nan-all']
+
+
+def value_cases():
+    out = []
+    for cls in CLASSES:
+        for method in methods_of(cls):
+            ns = ([1, 2] if method == 'multicomplex' else [1, 2, 3]) if cls == 'Derivative' else [1 if cls in ('Gradient', 'Jacobian') else 2]
+            for n in ns:
+                for order in ([None] if cls == 'Hessian' else [2]):
+                    for gen in (('default', {}), ('scalar', {'step': 1e-3})):
+                        for dim in ((1,) if cls == 'Derivative' else (1, 3)):
+                            for xt in ('a', 'z'):
+                                for form in VALUE_FORMS:
+                                    out.append((((cls, method, n, order), gen, dim, xt), form))
+    return out
+
+
+def work_values(chunk):
+    acc = fw.Acc()
+    for case, form in chunk:
+        (cls, method, n, order), gen, dim, xtag = case
+        status, bad, nargs = run_case(case, form)
+        acc.case(('values', case, form), nontrivial=(nargs >= 2), cell=['values/%s' % form, 'values/%s' % cls], outcome=(status, nargs, not bad))
+        acc.count('values-status:' + status)
+        for kind, detail in bad[:1]:
+            acc.violation('C05:%s:%s:%s:f-%s' % (cls, method, kind, form),
+                          {'cfg': [cls, method, n, order], 'gen': list(gen), 'dim': dim, 'x': xtag, 'values': form},
+                          'f returning %s: %s' % (form, detail), rank=dim * 100 + (order or 0) + n)
     return acc
 
 
@@ -308,9 +358,11 @@ def run(ctx):
     cases = enumerate_cases(ctx)
     acc = ctx.pmap(work, cases)
     acc.merge(ctx.pmap(work_setters, setter_cases(), chunk=4))
+    acc.merge(ctx.pmap(work_values, value_cases(), chunk=30))
     for c in cases[:3] + cases[len(cases) // 2:len(cases) // 2 + 3]:
         acc.sample({'cfg': c[0], 'gen': c[1], 'dim': c[2], 'x': make_x(c[3], c[2])})
-    cells = ['%s/%s' % (cls, m) for cls in CLASSES for m in methods_of(cls)] + ['setter/Derivative', 'setter/Jacobian']
+    cells = ['%s/%s' % (cls, m) for cls in CLASSES for m in methods_of(cls)] + ['setter/Derivative', 'setter/Jacobian'] + \
+        ['values/%s' % f for f in VALUE_FORMS] + ['values/%s' % c for c in CLASSES]
     rule = ('full product (class, method, n, order) x generator option vectors with <= %d deviations '
             'from the defaults (+ default, scalar steps) x dimension x x-pool; every argument passed '
             'to the recording user function is checked against exact admissibility predicates; '
@@ -332,6 +384,6 @@ def replay(case):
     cfg = tuple(case['cfg'])
     gen = (case['gen'][0], case['gen'][1])
     c = (cfg, gen, case['dim'], case['x'])
-    status, bad, nargs = run_case(c)
+    status, bad, nargs = run_case(c, case.get('values'))
     text = 'case=%r status=%s evaluations=%d violations=%r' % (c, status, nargs, bad[:3])
     return (not bad), text
